@@ -148,7 +148,12 @@ def scope_CreateScope : List Ev := [
   .call "child.Close" [],   -- kCas c (ret provDisposed): after the unlock
   .ret [],
   .write "s.rootProvider.scopes" ["s.rootProvider.scopesMu"],   -- sReg: the write
-  .unlock "s.rootProvider.scopesMu",
+  .unlock "s.rootProvider.scopesMu",   -- sReg ]
+  .atomic "LoadInt32" "child.disposed" [],   -- sRe (64d7b34): was the child closed between the two registrations?
+  .lock "s.rootProvider.scopesMu" [],   -- sUndo [
+  .delete "s.rootProvider.scopes" ["s.rootProvider.scopesMu"],   -- sUndo: take the closed child out again
+  .unlock "s.rootProvider.scopesMu",   -- sUndo ]
+  .ret [],
   .spawnBegin,   -- sSpawn
   .chanRecv "ctx.Done()" [],   -- wKid
   .call "child.Close" [],   -- wKid -> kCas c (ret okUnit)
@@ -179,6 +184,7 @@ def scope_GetKeyed : List Ev := [
 
 def scope_createInstance : List Ev := [
   .call "s.setInstance" [],
+  .call "s.shareInstance" [],
   .call "invoker.Invoke" [],   -- rCtor / tCtor / the initializer (USER), after the parameters were resolved through s.Get
   .call "s.setInstance" [],
   .call "s.setInstance" [],
@@ -196,11 +202,11 @@ def scope_dispose : List Ev := [
   .deferClosureBegin,
   .plainWrite "s.closeErr" [],   -- cErr (deferred second, runs before cSig)
   .closureEnd,
-  .call "s.cancel" [],   -- cCancel
-  .lock "s.childrenMu" [],   -- cTake [
+  .lock "s.childrenMu" [],   -- cTake [ (before the cancel: 0c7a2e0)
   .read "s.children" ["s.childrenMu"],
   .nilAssign "s.children" ["s.childrenMu"],
   .unlock "s.childrenMu",   -- cTake ]
+  .call "s.cancel" [],   -- cCancel
   .call "child.dispose" [],   -- cKids -> kCas ... (nested dispose of each child)
   .lock "s.disposablesMu" [],   -- cTakeD [
   .read "s.disposables" ["s.disposablesMu"],
@@ -239,13 +245,23 @@ def scope_lockCreation : List Ev := [
 ]
 
 def scope_resolve : List Ev := [
+  .ret [],
   .call "s.rootProvider.getSingleton" [],   -- gLoad
+  .ret [],
+  .atomic "LoadInt32" "s.disposed" [],   -- gMiss1 (0cb30f3)
+  .ret [],
+  .atomic "LoadInt32" "s.rootProvider.disposed" [],   -- gMiss2
+  .ret [],
   .call "s.getInstance" [],   -- rRead
+  .ret [],
   .call "s.lockCreation" [],   -- rMu, rLock
   .deferCall "unlock" [],   -- rUnl
   .call "s.getInstance" [],   -- rRe
+  .ret [],
   .call "s.createInstance" [],   -- nested resolution of the parameters, rCtor, rSet, rTrk
-  .call "s.createInstance" []   -- tCtor, tTrk
+  .ret [],
+  .call "s.createInstance" [],   -- tCtor, tTrk
+  .ret []
 ]
 
 def scope_runInitializers : List Ev := [
